@@ -91,6 +91,27 @@ def check_dechunk(ctx, fns, n):
     ctx.correspond("stream2bytearray", cases)
 
 
+def check_dechunk_big(ctx, fns, n):
+    """payloads with chunks of 65 536 bytes and more: the size field really is 24 bits wide"""
+    rng = ctx.rng("dechunk-big")
+    cases = []
+    for i in range(n):
+        size = 70000 + rng.randint(0, 200000)
+        payload = bytes(rng.getrandbits(8) for _ in range(size))
+        little = rng.random() < 0.5
+        sizes = big_partition(rng, size)
+        wire = R.chunked(payload, sizes, little)
+        got, err = dechunk_impl(fns, wire)
+        impl = "(ok %s)" % hexb(got) if err is None else "(err %s)" % err
+        cases.append(("dap4-dechunk %s" % hexb(wire), impl, {"mode": "big", "sizes": sizes[:40]}))
+        if got != payload:
+            ctx.oracle_fail("reassembled payload differs from the payload sent",
+                            {"kind": "dechunk", "payload": payload.hex(), "sizes": sizes, "little": little, "junk": ""},
+                            (impl[:100] + " len=%d" % len(got or b"")), payload.hex()[:100] + " len=%d" % size, size=len(wire))
+        ctx.count(("dechunk-big", wire[:64], size), True, tag="dechunk:big:%d-chunks" % len(sizes))
+    ctx.correspond("stream2bytearray (chunks >= 64 KiB)", cases)
+
+
 def split_impl(fns, resp):
     from webob.response import Response
     u = object.__new__(fns["UNPACK"])
@@ -102,6 +123,29 @@ def split_impl(fns, resp):
         return "(ok %s %s %s)" % (hexb(dmr.encode("ascii")), endian, hexb(data))
     except Exception as e:
         return "(err %s)" % err_class(e)
+
+
+class OrderSpy(object):
+    """records the order in which unpack_dap4_data consumes the variables (it calls get_count once per variable,
+    right before cutting that variable's bytes from the buffer)"""
+
+    def __init__(self):
+        import pydap.handlers.dap as D
+        self.D = D
+        self.seen = []
+
+    def __enter__(self):
+        self.orig = self.D.get_count
+
+        def spy(variable):
+            path = variable.path
+            self.seen.append(variable.name if path is None else path + "/" + variable.name)
+            return self.orig(variable)
+        self.D.get_count = spy
+        return self
+
+    def __exit__(self, *a):
+        self.D.get_count = self.orig
 
 
 def unpack_impl(fns, resp, via_file=False):
@@ -134,7 +178,8 @@ def judge_response(ctx, fns, spec, arrays, ds, err, little, sizes, where):
         try:
             with warnings.catch_warnings():
                 warnings.simplefilter("ignore")
-                var = ds[fq] if path else ds[v["name"]]
+                # pydap addresses a variable by its stored name (`.` quoted as %2E)
+                var = ds[R.fqn(path, G.dap_quote(v["name"]))] if path else ds[G.dap_quote(v["name"])]
             data = np.asarray(var.data)
         except Exception as e:
             ctx.oracle_fail("declared variable missing from the decoded dataset", dict(case, var=fq), err_class(e), fq,
@@ -146,30 +191,80 @@ def judge_response(ctx, fns, spec, arrays, ds, err, little, sizes, where):
                             [str(arrays[fq].dtype), list(arrays[fq].shape), G.be_hex(arrays[fq])[:80]], size=size)
 
 
-def check_responses(ctx, fns, n, label, **kw):
+def big_spec(rng, i):
+    """a dataset whose serialisation exceeds 64 KiB, so that chunks of 65 536 bytes and more occur (the 24-bit size
+    field): one long variable between two small ones, optionally inside a group"""
+    ty = rng.choice(["Int8", "UInt16", "Float64", "Int32"])
+    width = int(R.NUMERIC[ty][1])
+    n = (70000 + rng.randint(0, 70000)) // width
+    long_var = {"k": "var", "type": ty, "name": "long", "dims": [{"size": n}], "attrs": [], "maps": []}
+    a = {"k": "var", "type": "Int16", "name": "a", "dims": [{"size": 2}], "attrs": [], "maps": []}
+    b = {"k": "var", "type": "UInt8", "name": "b", "dims": [], "attrs": [], "maps": []}
+    if i % 2:
+        return {"name": "big", "items": [a, {"k": "group", "name": "g", "items": [long_var]}, b]}
+    return {"name": "big", "items": [a, long_var, b]}
+
+
+def big_partition(rng, n):
+    """partitions with at least one chunk of 65 536 bytes or more (sizes that differ from their low 16 bits)"""
+    style = rng.choice(["one", "two", "64k+1", "many"])
+    if style == "one":
+        return [n]
+    if style == "two":
+        k = rng.randint(65536, n - 1)
+        return [k, n - k]
+    if style == "64k+1":
+        return [65537, n - 65537] if n > 65537 else [n]
+    sizes, left = [], n
+    while left > 0:
+        k = min(left, rng.choice([65536, 65536 + rng.randint(1, 4000), 3, 1000]))
+        sizes.append(k)
+        left -= k
+    return sizes
+
+
+def check_responses(ctx, fns, n, label, big=False, **kw):
     rng = ctx.rng(label)
-    cases, split_cases = [], []
+    cases, split_cases, order_cases = [], [], []
     for i in range(n):
-        spec = G.gen_spec(rng, attrs=False, **kw)
+        spec = big_spec(rng, i) if big else G.gen_spec(rng, attrs=False, **kw)
         arrays = G.gen_arrays(rng, spec)
         ordered = [arrays[R.fqn(p, v["name"])] for p, v in R.walk_vars(spec)]
         text = R.render_dmr(spec)
         for little in (True, False):
             body = R.serialise(ordered, little)
-            sizes = R.random_partition(rng, len(body))
+            sizes = big_partition(rng, len(body)) if big else R.random_partition(rng, len(body))
             resp = R.encode_response(text, ordered, little, sizes)
             via_file = rng.random() < 0.1
-            ds, err = unpack_impl(fns, resp, via_file)
+            with OrderSpy() as spy:
+                ds, err = unpack_impl(fns, resp, via_file)
             judge_response(ctx, fns, spec, arrays, ds, err, little, sizes, "file" if via_file else "buffer")
+            doc_order = [R.fqn(p, v["name"]) if p else v["name"] for p, v in R.walk_vars(spec)]
+            spy_seen_quoted = list(spy.seen)
+            spy.seen = [G.dap_unquote(k) for k in spy.seen]
+            if ds is not None and spy.seen != doc_order:
+                ctx.oracle_fail("variables are decoded in another order than the DMR declares them",
+                                {"kind": "response", "spec": spec, "arrays": {k: G.be_hex(v) for k, v in arrays.items()},
+                                 "little": little, "sizes": sizes if len(sizes) <= 64 else None},
+                                spy.seen, doc_order, size=len(doc_order))
+            if little:
+                x0 = G.xnode_sexp(G.et_of_dmr(text))
+                order_cases.append(("dmr-order " + x0, "(ok" + "".join(" " + G.hexs(k) for k in spy.seen) + ")"
+                                    if ds is not None else "(err %s)" % err, {"spec": spec}))
+                for t in G.layout_tags(spec):
+                    ctx.tags[label + ":" + t] += 1
+                if big:
+                    ctx.tags["chunk>=65536"] += sum(1 for k in sizes if k >= 65536)
             if ds is None:
                 impl = "(err %s)" % err
             else:
                 impl = "(ok %s" % ("<" if little else ">")
-                # decode order of the implementation = order in which the model lists them; values as bit patterns
+                # listed in the order the implementation consumed them (the model lists its `decodeOrder`);
+                # values as bit patterns
                 by_key = {G.var_key(v): v for v in fns["walk"](ds, fns["BaseType"])}
-                for p, v in R.walk_vars(spec):
-                    key = R.fqn(p, v["name"]) if p else v["name"]
-                    var = by_key.get(key)
+                for qkey in spy_seen_quoted:
+                    var = by_key.get(qkey)
+                    key = G.dap_unquote(qkey)
                     if var is None:
                         impl += " (%s missing)" % G.hexs(key)
                         continue
@@ -188,8 +283,9 @@ def check_responses(ctx, fns, n, label, **kw):
                       tag="%s:%s:depth=%d:%s" % (label, "LE" if little else "BE", R.max_depth(spec),
                                                  "multi" if len(sizes) > 1 else "single"),
                       sample={"dmr": text[:300], "chunks": sizes[:10]} if i == 0 and little else None)
-    ctx.correspond("UNPACKDAP4DATA (whole response)", cases)
+    ctx.correspond("UNPACKDAP4DATA (whole response)%s" % (" large chunks" if big else ""), cases)
     ctx.correspond("safe_dmr_and_data", split_cases)
+    ctx.correspond("unpack_dap4_data decode order (decodeOrder, C10_decode_order)", order_cases)
 
 
 # ------------------------------------------------------------------------------------------------
@@ -295,7 +391,7 @@ def check_index(ctx, fns, n):
 def run(ctx):
     ctx.rule = ("all 256 chunk-type values; seeded random payloads x adversarial chunk partitions (one chunk, 1-byte "
                 "chunks, fixed small sizes, random sizes, empty chunks; trailing junk, truncation, missing last flag, "
-                "garbage); random datasets (10 numeric types, rank 0-3, shared/anonymous/mixed dimensions, groups to depth "
+                "garbage; a few payloads with chunks of 65 536 bytes and more); random datasets (10 numeric types, rank 0-3, shared/anonymous/mixed dimensions, groups to depth "
                 "3) serialised in both byte orders with random chunkings, decoded from a buffer and from a file; index "
                 "expressions (ints, negative, strided slices, Ellipsis, short tuples) through the reference DAP4 server; "
                 "a case is non-trivial when it has several chunks or variables / a non-empty index")
@@ -315,7 +411,10 @@ def explore(ctx, fns, tier):
     check_chunktype(ctx, fns)
     check_dechunk(ctx, fns, 1500 * k)
     check_responses(ctx, fns, 150 * k, "flat", groups=False)
-    check_responses(ctx, fns, 350 * k, "groups")
+    check_responses(ctx, fns, 300 * k, "groups")
+    check_responses(ctx, fns, 50 * k, "quoted-names", var_names=G.NAMES[:4] + G.QUOTED_NAMES)
+    check_responses(ctx, fns, 1 if tier == "quick" else 6, "big", big=True)
+    check_dechunk_big(ctx, fns, 1 if tier == "quick" else 6)
     check_index(ctx, fns, 250 * k)
 
 
@@ -351,8 +450,12 @@ def replay(payload):
         body = R.serialise(ordered, c["little"])
         sizes = c.get("sizes") or [len(body)]
         resp = R.encode_response(R.render_dmr(spec), ordered, c["little"], sizes)
-        ds, err = unpack_impl(fns, resp)
+        with OrderSpy() as spy:
+            ds, err = unpack_impl(fns, resp)
         judge_response(ctx, fns, spec, arrays, ds, err, c["little"], sizes, "replay")
+        doc_order = [R.fqn(p, v["name"]) if p else v["name"] for p, v in R.walk_vars(spec)]
+        if ds is not None and [G.dap_unquote(k) for k in spy.seen] != doc_order:
+            ctx.oracle_fail("decode order differs from document order", c, spy.seen, doc_order)
     else:
         idx = idx_from_json(c["index"])
         exp = arrays[c["var"]][idx]
